@@ -29,6 +29,8 @@ GEN = os.path.join(vlib.COQDIR, "Generated", "C13_tables.v")
 M32 = 0xffffffff
 M64 = 0xffffffffffffffff
 F2_SIGNATURE = "canonical-float-returns-one"
+MY_COQ_FILES = ["Properties_C13.v", "C13/Xorwow.v", "C13/Run.v", "C13/Gf2.v", "C13/XorwowProofs.v", "C13/Period.v",
+                "C13/PeriodProofs.v", "C13/InitProofs.v", "Generated/C13_tables.v", "Generated/C13_period.v"]
 
 
 # ---------------------------------------------------------------------------
@@ -102,7 +104,7 @@ def rstate(r):
 def gen_cases(ctx):
     r = ctx.rng
     big = ctx.tier != "quick"
-    mul = 8 if big else 1
+    mul = 20 if big else 1
     C = []
 
     def add(op, *args):
@@ -268,6 +270,9 @@ def run(ctx):
     except tr.TieError as e:
         tie_err = str(e)
         ctx.log("translator: TIE BROKEN:", tie_err)
+    except Exception as e:      # a translator crash on an odd source is a broken tie, not a tool error
+        tie_err = "translator crashed on the current source: %r" % (e,)
+        ctx.log("translator: TIE BROKEN:", tie_err)
 
     # 2+3. harness build (background thread) and proofs ---------------------------
     from concurrent.futures import ThreadPoolExecutor
@@ -286,6 +291,12 @@ def run(ctx):
         if P is not None:
             proofs_ok = prove_retry(ctx)
             model_ok = build_retry(ctx, ["C13/Run.vo"])
+            # vlib's dependency closure does not follow `From Celer Require Import X`: scan our own files explicitly
+            forb = ctx.scan_forbidden(MY_COQ_FILES)
+            if forb:
+                proofs_ok = False
+                ctx.broken_proof = {"target": "Properties_C13.vo", "forbidden": forb}
+                del ctx.discharged[:]
         exe = fut.result()      # BuildError propagates: tie broken
     cases = gen_cases(ctx)
     inp = "".join("%s %s\n" % (op, " ".join(str(x) for x in a)) for op, a in cases)
@@ -301,11 +312,19 @@ def run(ctx):
     Pref = P
     if P is None:
         # the engine constants may still be extractable: keep the GF(2)[z] reference oracle alive
-        part = tr.extract(vlib.REPO, [])
+        try:
+            part = tr.extract(vlib.REPO, [])
+        except Exception:
+            part = {}
         if all(k in part for k in ("sh_a", "sh_b", "sh_c", "weyl_draw", "sm_gamma", "sm_s1", "sm_m1", "sm_s2", "sm_m2", "sm_s3")):
             Pref = part
     if Pref is not None:
-        ref = Ref(Pref)
+        try:
+            ref = Ref(Pref)
+        except Exception as e:
+            ctx.notes.append("python reference unavailable: %r" % (e,))
+            ref = None
+    if ref is not None:
         if not ref.ok:
             ctx.notes.append("python reference: computed polynomial does not annihilate T; reference oracle disabled")
             ref = None
@@ -395,7 +414,7 @@ def run(ctx):
                                  "model", "xorwow_model")
         idx = [i for i, (op, a) in enumerate(cases) if op != "seqdisc"]
         # sequential cases through the model as well: n model draws vs the implementation's n draws
-        seq_idx = [i for i, (op, a) in enumerate(cases) if op == "seqdisc" and a[0] > 0]
+        seq_idx = [i for i, (op, a) in enumerate(cases) if op == "seqdisc" and 0 < a[0] <= 65536][:60]
         mlines = ["%s %s" % (cases[i][0], " ".join("%x" % x for x in cases[i][1])) for i in idx]
         mlines += ["draw %s" % " ".join("%x" % x for x in cases[i][1]) for i in seq_idx]
         rc, mout = vlib.sh([mexe], input="\n".join(mlines) + "\n", timeout=1500)
